@@ -118,7 +118,11 @@ pub fn head_edits() -> Vec<TextCase> {
         let chars: Vec<char> = text.chars().collect();
         let positions: Vec<usize> = (0..chars.len().min(12)).chain((12..chars.len()).step_by(7)).chain([chars.len() - 1]).collect();
         for pos in positions {
-            for ch in ['é', '€', '𝄞', '\u{80}', ':', 'e', ' '] {
+            // `lookalike`: non-ASCII characters whose code point has the replaced character in its low byte
+            // (a parser that narrows `char` to `u8` reads them as that character)
+            let orig = chars[pos] as u32;
+            let look: Vec<char> = [0x100u32, 0x4e00, 0x1f600, 0x10000].iter().filter_map(|hi| char::from_u32(hi | (orig & 0xff))).collect();
+            for ch in ['é', '€', '𝄞', '\u{80}', ':', 'e', ' '].into_iter().chain(look) {
                 if pos >= 12 && ch.len_utf8() == 1 {
                     continue;
                 }
